@@ -495,6 +495,29 @@ def r11_7(ctx):
     ctx.floor("R11.7", n, 1, "DELETEs that select their rows through another table")
 
 
+def r11_9(ctx):
+    """Rows written before the `msg_keys` column existed carry UIDs but no keys.  The restore pairs the stored UIDs with the
+    *first* len(uids) message files of the folder - UIDs were handed out in key order, anything the old server had not seen
+    yet lies behind them and is picked up as new by the resync.  Taking the last len(uids) files (or all of them) re-binds
+    every revealed UID to another message under the same UIDVALIDITY whenever something was delivered while the old server
+    was down."""
+    from .common import pm_of
+
+    p = ctx.p
+    fi = p.func("mbox.Mailbox._restore_from_db")
+    ctx.analysed(fi)
+    pm = pm_of(p, fi)
+    heads = ["if not self.msg_keys and self.uids:\n    ks = [int(x) for x in self.mailbox.keys()]\n    self.msg_keys = ks[{sl}]\n    ..."]
+    slices = [":len(self.uids)", "0:len(self.uids)"]
+    pats = [h.format(sl=s_) for h in heads for s_ in slices]
+    pats += ["if not self.msg_keys and self.uids:\n    self.msg_keys = [int(x) for x in self.mailbox.keys()][:len(self.uids)]\n    ...",
+             "if not self.msg_keys and self.uids:\n    self.msg_keys = sorted(int(x) for x in self.mailbox.keys())[:len(self.uids)]\n    ..."]
+    if any(pm.has(x) for x in pats):
+        ctx.ok("R11.9", where(fi), "legacy row without msg_keys: stored UIDs paired with the first len(uids) keys of the folder")
+    else:
+        ctx.bad("R11.9", fi.module, fi.qual, "self.msg_keys = msg_keys[:len(self.uids)]", "a row from before the msg_keys column is no longer completed with the *first* len(uids) keys of the folder: after the upgrade restart every UID of that mailbox denotes another message (same UIDVALIDITY) as soon as one message was delivered that the old server had not numbered", fi.node.lineno)
+
+
 def run(ctx):
     ctx.do(r11_1)
     ctx.do(r11_2)
@@ -504,10 +527,13 @@ def run(ctx):
     ctx.do(r11_6)
     ctx.do(r11_7)
     ctx.do(r11_8)
+    ctx.do(r11_9)
     from . import c02
     ctx.do(c02.r2_1)
     ctx.do(c02.r2_4)
     from . import c13
     ctx.do(c13.r13_6)
+    from . import c12 as _c12
+    ctx.do(_c12.r12_8)  # clean-up statements remove the rows of the mailbox that is gone, nobody else's
     ctx.note("R11.5 (reconcile never lowers next_uid; UID state committed) is decided by C02 rules R2.1/R2.4")
     ctx.trust("frozen table of persistent operations: " + ", ".join(k for k, _, _ in OPS))
